@@ -304,7 +304,8 @@ func opsCoq(ops []Op) string {
 	return List(s)
 }
 
-// Recipe: one case. Kind: plain const real dv sv dm sm (round trips), mal-real mal-dv mal-sv mal-dm mal-sm.
+// Recipe: one case. Kind: plain const real dv sv dm sm (JSON round trips), mal-real mal-dv mal-sv mal-dm mal-sm (malformed JSON);
+// t-dv t-dm t-sv t-sm (table round trips), tmal-dv tmal-dm tmal-sv tmal-sm (malformed table files), t-lit; cfg cfg-mal (distribution configs).
 type Recipe struct {
 	Kind  string
 	Type  string
@@ -316,4 +317,6 @@ type Recipe struct {
 	Ops   []Op   `json:",omitempty"`
 	Bytes string `json:",omitempty"` // malformed stream: the JSON text handed to the reader
 	Mut   string `json:",omitempty"` // which mutation produced Bytes (histogram only)
+	File  string `json:",omitempty"` // table malformed stream (tmal-*): the bytes of the file, hex-encoded
+	Cfg   *CfgRecipe `json:",omitempty"` // distribution configuration cases (cfg, cfg-mal)
 }
